@@ -19,7 +19,7 @@ META = {
         "the Report, the client's cache and arithmetic, and the next request's security parameters."),
     "bounds": ["histories of 1..4 operations (get / set / walk step)", "clock advance before each operation from {0, 1, 149, 150, 151, 3600, 259200, 10^6} s (traced: any 0..10^6)",
                "agent boots in {1, 7, 2^31-2}, time at discovery in {0, 100, 2^30} (traced: any)", "reboot before an operation: yes / no (thorough; reported as known finding F19)",
-               "discovery reply: matching / foreign message id, with / without bindings", "levels noAuthNoPriv, authNoPriv (MD5), authPriv (SHA-1)"],
+               "discovery reply: matching / foreign message id, with / without bindings", "levels noAuthNoPriv, authNoPriv (MD5), authPriv (SHA-1)", "default and explicit (different) context engine id"],
     "outside": ["clock going backwards", "snmpEngineTime wrapping past 2^31-1", "client and agent clocks drifting apart (one virtual clock drives both)"],
     "stubs": ["sender = trampoline", "all clocks = one virtual clock", "get_request_id pinned", "privacy plug-in = harness stream cipher"],
     "assumptions": ["a conformant non-authoritative engine may estimate snmpEngineTime from its own clock (RFC 3414 2.3)"],
@@ -80,7 +80,10 @@ class VClock:
         self.saved = []
 
 
-def make_harness(kind, nops, reboots=False, traced=False):
+CTX_ENGINE = b"\x80\x00\x1f\x88\x04some-other-context-engine"
+
+
+def make_harness(kind, nops, reboots=False, traced=False, explicit_ctx=False):
     level = {"noauth": 0, "md5": 1, "sha1priv": 3}[kind]
 
     def h(b_sel, t_sel, a0, a1, a2, a3, r1, r2, r3, disco_id, disco_vb, op_sel):
@@ -102,7 +105,8 @@ def make_harness(kind, nops, reboots=False, traced=False):
             vc = VClock().install()
             state = {"boots": boots0, "epoch": vc.now - t0}   # engine time = now - epoch
             try:
-                world = C.World(kind, Database(UNIVERSE), boots=boots0, clock=lambda: int(vc.now - state["epoch"]))
+                world = C.World(kind, Database(UNIVERSE), boots=boots0, clock=lambda: int(vc.now - state["epoch"]),
+                                engine_id=CTX_ENGINE if explicit_ctx else b"")
                 eng = world.engine
                 if bad_id:
                     orig_report = eng.report
@@ -162,7 +166,7 @@ def make_harness(kind, nops, reboots=False, traced=False):
                             msg = ber.dec_v3_msg(data)
                             if msg.usm.engine_id != eng.engine_id:
                                 problem = "security engine id %r" % (msg.usm.engine_id,)
-                            elif msg.scoped is not None and msg.scoped.ctx_engine_id != eng.engine_id:
+                            elif msg.scoped is not None and msg.scoped.ctx_engine_id != (CTX_ENGINE if explicit_ctx else eng.engine_id):
                                 problem = "context engine id %r" % (msg.scoped.ctx_engine_id,)
                             elif not rebooted:
                                 now_engine = int(vc.now - state["epoch"])
@@ -222,6 +226,14 @@ def jobs(tier):
         if not quick:
             out.append(Job(f"history-{kind}-3ops-reboots", make_harness(kind, 3, reboots=True), args(3, True, discos=False), timeout=1500,
                            mode="E/concolic-window", functions=tf, sample_every=29))
+    # an explicit context engine id (different from the agent's engine id) must not disturb the timeliness bookkeeping
+    for kind in ("md5", "sha1priv") if not quick else ("md5",):
+        for nops in (2, 3):
+            ax = args(nops, False, discos=False)
+            if quick:
+                ax[0], ax[1] = Arg("boots", 1, 1), Arg("t0", 1, 1)
+            out.append(Job(f"history-{kind}-{nops}ops-explicit-context-engine-id", make_harness(kind, nops, explicit_ctx=True), ax,
+                           timeout=600 if quick else 1500, mode="E/concolic-window", functions=tf, sample_every=13))
     ar = args(2, True, discos=False)
     if quick:
         ar[0], ar[1] = Arg("boots", 0, 0), Arg("t0", 0, 1)
